@@ -6,7 +6,7 @@ import random
 import numpy as np
 import torch
 
-from simcore.sched import HarnessError, SimQueue
+from simcore.sched import HarnessError, SimQueue, sim_threading
 from worlds import media, stream
 
 import sleap_io as sio  # noqa: E402
@@ -407,6 +407,8 @@ def execute(plan, choices=None):
     hook = stream.ReadFaults(sim, plan["faults"], key_of=None)
     # LabelsReader reads by (video, frame_idx): map back to the stream position
     sim.register_main("consumer")
+    simthr = sim_threading(sim)
+    simthr.__enter__()
     try:
         truth, pred, rec, got = _build(plan, sim, hook)
     except Exception as e:  # building the reader / pipeline for a valid plan must not raise (the stream would never even start)
@@ -418,6 +420,7 @@ def execute(plan, choices=None):
                 where = fs.filename.split("sleap_nn/")[-1] + ":" + fs.name
         if where == "?":
             raise
+        simthr.__exit__()
         try:
             sim.teardown()
         except Exception:
@@ -438,7 +441,10 @@ def execute(plan, choices=None):
     sim.state_fn = lambda: (min(len(q.queue), 9), len(got) % 7, len(rec.batches) % 5,
                             sim.tasks["reader"].state if "reader" in sim.tasks else "new",
                             sim.tasks["consumer"].state, len(hook.fired))
-    records, end, err = stream.run_consumer(sim, pred)
+    try:
+        records, end, err = stream.run_consumer(sim, pred)
+    finally:
+        simthr.__exit__()
     if sim.failure and sim.failure["kind"] == "harness":
         raise HarnessError(sim.failure["detail"])
 
